@@ -51,7 +51,9 @@ package generic
 //@   loop 1 invariant optlog == old(optlog) ++ applied(options, box("*generic.OperationOptions", o), rangeindex + 1)
 //@   loop 1 invariant rangeindex == -1 ==> !o.StopOnFailed && len(o.FailedWhenContains) == 0
 
-//@ func (*Driver).sendCommand [C13]
+//@ func (*Driver).sendCommand [C13 C01]
+//@   at call! SendInput#1 assert [C01] #the-command-and-the-operation-options-reach-the-channel arg0 == command && arg1 === opts
+//@   at call! Record#1 assert [C01] #the-response-records-what-the-channel-returned arg0 == b
 //@   requires RI(d.Channel.Q) && d.Channel.PromptSearchDepth >= 0
 //@   ensures RI(d.Channel.Q)
 //@   modifies sent, driverOpts.FailedWhenContains, alloc(), optlog
@@ -62,7 +64,8 @@ package generic
 //@   ensures #failed-implies-contains result.1 == nil && result.0.Failed != nil ==> containsAnyS(result.0.Result, result.0.FailedWhenContains)
 //@   ensures #contains-implies-failed result.1 == nil && validFWC(result.0.FailedWhenContains) && containsAnyS(result.0.Result, result.0.FailedWhenContains) ==> result.0.Failed != nil
 
-//@ func (*Driver).SendCommand [C13]
+//@ func (*Driver).SendCommand [C13 C01]
+//@   at call! sendCommand#1 assert [C01] #the-command-is-sent-with-the-operation-options arg0 == command && arg1 == op && arg2 === opts
 //@   requires RI(d.Channel.Q) && d.Channel.PromptSearchDepth >= 0
 //@   modifies sent, alloc(), optlog
 //@   ensures #one-exchange result.1 == nil ==> sent == old(sent) ++ strs(command)
